@@ -1,6 +1,8 @@
 use duckscript::parser;
 use duckscript::runner;
-use duckscript::types::command::{CommandResult, Commands, GoToValue};
+use duckscript::types::command::{
+    CommandInvocationContext, CommandResult, Commands, GoToValue,
+};
 use duckscript::types::env::Env;
 use duckscript::types::instruction::{Instruction, InstructionType};
 use duckscript::types::runtime::StateValue;
@@ -39,6 +41,50 @@ fn parse(arguments: &Vec<String>) -> Result<Instruction, String> {
     match parser::parse_text(&line_str) {
         Ok(instructions) => Ok(instructions[0].clone()),
         Err(error) => Err(error.to_string()),
+    }
+}
+
+/// Invokes the command named by the first value with the remaining values as its arguments.
+/// The values are passed as is: they are data, not script text to be parsed or expanded again.
+fn run_values(
+    arguments: &Vec<String>,
+    instructions: &Vec<Instruction>,
+    line: usize,
+    state: &mut HashMap<String, StateValue>,
+    variables: &mut HashMap<String, String>,
+    commands: &mut Commands,
+    env: &mut Env,
+) -> CommandResult {
+    match commands.get_for_use(&arguments[0]) {
+        Some(command_instance) => command_instance.run(CommandInvocationContext {
+            arguments: arguments[1..].to_vec(),
+            state,
+            variables,
+            output_variable: None,
+            instructions,
+            commands,
+            line,
+            env,
+        }),
+        None => CommandResult::Crash(format!("Command: {} not found.", &arguments[0])),
+    }
+}
+
+/// Same as eval_with_error for values which were already bound (alias invocations).
+pub(crate) fn eval_values_with_error(
+    arguments: &Vec<String>,
+    state: &mut HashMap<String, StateValue>,
+    variables: &mut HashMap<String, String>,
+    commands: &mut Commands,
+    env: &mut Env,
+) -> CommandResult {
+    if arguments.is_empty() {
+        CommandResult::Continue(None)
+    } else {
+        match run_values(arguments, &vec![], 0, state, variables, commands, env) {
+            CommandResult::Crash(error) => CommandResult::Error(error),
+            command_result => command_result,
+        }
     }
 }
 
@@ -98,28 +144,45 @@ pub(crate) fn eval_with_instructions(
     if arguments.is_empty() {
         CommandResult::Continue(None)
     } else {
-        match parse(arguments) {
-            Ok(instruction) => {
-                let mut all_instructions = instructions.clone();
-                all_instructions.push(instruction);
-                let (flow_result, flow_output) = eval_instructions(
-                    &all_instructions,
+        // the invocation acts as an additional last line of the script
+        let call_line = instructions.len();
+        let command_result = run_values(
+            arguments,
+            instructions,
+            call_line,
+            state,
+            variables,
+            commands,
+            env,
+        );
+
+        let result = match command_result {
+            CommandResult::GoTo(output, GoToValue::Line(line_number)) => {
+                // a function call, keep running from the requested line until it returns
+                let (flow_result, flow_output) = eval_instructions_with_output(
+                    instructions,
                     commands,
                     state,
                     variables,
                     env,
-                    all_instructions.len() - 1,
+                    line_number,
+                    output,
                 );
 
                 match flow_result {
-                    Some(result) => match result.clone() {
-                        CommandResult::Crash(error) => CommandResult::Error(error),
-                        _ => result,
-                    },
+                    Some(result) => result,
                     None => CommandResult::Continue(flow_output),
                 }
             }
-            Err(error) => CommandResult::Error(error),
+            CommandResult::GoTo(_, GoToValue::Label(_)) => CommandResult::Error(
+                "goto label result not supported in alias command flow.".to_string(),
+            ),
+            _ => command_result,
+        };
+
+        match result {
+            CommandResult::Crash(error) => CommandResult::Error(error),
+            _ => result,
         }
     }
 }
@@ -132,8 +195,28 @@ pub(crate) fn eval_instructions(
     env: &mut Env,
     start_line: usize,
 ) -> (Option<CommandResult>, Option<String>) {
+    eval_instructions_with_output(
+        instructions,
+        commands,
+        state,
+        variables,
+        env,
+        start_line,
+        None,
+    )
+}
+
+fn eval_instructions_with_output(
+    instructions: &Vec<Instruction>,
+    commands: &mut Commands,
+    state: &mut HashMap<String, StateValue>,
+    variables: &mut HashMap<String, String>,
+    env: &mut Env,
+    start_line: usize,
+    start_output: Option<String>,
+) -> (Option<CommandResult>, Option<String>) {
     let mut line = start_line;
-    let mut flow_output = None;
+    let mut flow_output = start_output;
     let mut flow_result = None;
     loop {
         let instruction = if instructions.len() > line {
